@@ -47,7 +47,7 @@ class PythonCQSAnalyzer:
         """
         try:
             tree = ast.parse(code, filename=file_path)
-        except SyntaxError:
+        except (SyntaxError, RecursionError, MemoryError):
             return []
 
         analyzer = FunctionAnalyzer(file_path, config)
